@@ -150,6 +150,10 @@ V['metrics.finish_cycle'] = dict(requires=[], ensures=[
 _DC_INV = [
     ('inv', 'inv(self@), quiescent(self@)'),
     ('terminates', 'has_slept ==> self@.phase != Phase::Sleep'),
+    # T-exact (C02): an atomic cycle started asleep: until the call has slept nothing changed; afterwards the cycle-progress invariant holds
+    ('exact', 'quiescent(old(self)@)'),
+    ('exact', '(old(self)@.phase == Phase::Sleep && !has_slept) ==> self@ == old(self)@'),
+    ('exact', '(old(self)@.phase == Phase::Sleep && has_slept) ==> exact_x(old(self)@, self@)'),
     ('asleep_no_progress', 'run_until == RunUntil::PayDebt ==> debt_pos(old(self)@.m)'),
     ('history', 'old(self)@.hist.len() <= self@.hist.len(), self@.hist.subrange(0, old(self)@.hist.len() as int) =~= old(self)@.hist'),
     ('stop_the_world', 'zero_work_factors(self@.m.fl) == zero_work_factors(old(self)@.m.fl)'),
@@ -167,6 +171,8 @@ _DC_LOOP_ENS = [
     ('finish_marking', '(run_until == RunUntil::Stop && stop == Stop::FullyMarked && old(self)@.phase != Phase::Sweep) ==> self@.phase == Phase::Mark && !gray_remaining_spec(self@)'),
     ('start_sweeping', '(run_until == RunUntil::Stop && stop == Stop::AtSweep && old(self)@.phase != Phase::Sweep) ==> self@.phase == Phase::Sweep'),
     ('finish_cycle', '(run_until == RunUntil::Stop && stop == Stop::FinishCycle) ==> self@.phase == Phase::Sleep'),
+    ('exact', '(old(self)@.phase == Phase::Sleep && run_until == RunUntil::Stop && stop == Stop::FinishCycle) ==> exact_final(old(self)@, self@) && exact_final_shells(old(self)@, self@)'),
+    ('dead_is_unreachable', '(old(self)@.phase == Phase::Sleep && run_until == RunUntil::Stop && stop == Stop::FullyMarked) ==> exact_marked(old(self)@, self@)'),
     ('collect_debt_pays', '(run_until == RunUntil::PayDebt && stop == Stop::Full) ==> !debt_pos(self@.m)'),
     ('cycle_debt_pays', '(run_until == RunUntil::PayDebt && stop == Stop::FinishCycle) ==> !debt_pos(self@.m) || self@.phase == Phase::Sleep'),
     ('mark_debt_pays', '(run_until == RunUntil::PayDebt && stop == Stop::FullyMarked) ==> !debt_pos(self@.m) || self@.phase == Phase::Sweep || (self@.phase == Phase::Mark && !gray_remaining_spec(self@))'),
@@ -182,6 +188,10 @@ V['context.do_collection'] = dict(
         ('finish_marking', ['C07', 'C08'], '(run_until == RunUntil::Stop && stop == Stop::FullyMarked && old(self)@.phase != Phase::Sweep) ==> final(self)@.phase == Phase::Mark && !gray_remaining_spec(final(self)@)'),
         ('start_sweeping', ['C08'], '(run_until == RunUntil::Stop && stop == Stop::AtSweep && old(self)@.phase != Phase::Sweep) ==> final(self)@.phase == Phase::Sweep'),
         ('finish_cycle', ['C02', 'C08'], '(run_until == RunUntil::Stop && stop == Stop::FinishCycle) ==> final(self)@.phase == Phase::Sleep'),
+        # C02: finish_cycle called asleep (no mutation in between: one call) leaves exactly the strongly reachable values undestructed
+        ('exact', ['C02', 'C07'], '(old(self)@.phase == Phase::Sleep && run_until == RunUntil::Stop && stop == Stop::FinishCycle) ==> exact_final(old(self)@, final(self)@) && exact_final_shells(old(self)@, final(self)@)'),
+        # C07: finish_marking called asleep (marking began in this call, no mutation since): is_dead is true exactly for the unreachable objects
+        ('dead_is_unreachable', ['C07'], '(old(self)@.phase == Phase::Sleep && run_until == RunUntil::Stop && stop == Stop::FullyMarked) ==> exact_marked(old(self)@, final(self)@)'),
         # C08: history is only extended; with FinishCycle, Sleep can only be the last phase entered in this call
         ('history', ['C08'], 'old(self)@.hist.len() <= final(self)@.hist.len() && final(self)@.hist.subrange(0, old(self)@.hist.len() as int) =~= old(self)@.hist'),
         ('cycle_stops_at_sleep', ['C08'], 'stop == Stop::FinishCycle ==> forall|i: int| old(self)@.hist.len() <= i < final(self)@.hist.len() - 1 ==> final(self)@.hist[i] != Phase::Sleep'),
@@ -244,6 +254,8 @@ L_SERVES = {
     'theorems':  [],
     'lem_traced': ['C10', 'C06'],
     'lem_term': ['C02', 'C09'],
+    'lem_exact': ['C02', 'C07'],
+    'bcast_x': ['C02', 'C07'],
     'witness': [],
 }
 L_SERVES_FN = {
